@@ -681,3 +681,80 @@ def rule_table_bound_reset(ctx):
                 ctx.violated("TABLEFREE", key, f.where(frees[0][4]), "%s releases the table `%s` but leaves its bound `%s` as it was: ids below the stale bound are then looked up through the NULL table" % (f.name, g, nvar))
     ctx.floor("TABLEFREE", 1, n, "(routines that release an id-indexed global table)")
     return n
+
+
+class _SelfCmp(PathAnalysis):
+    """user = frozenset of (variable, rendered expression it was last assigned from)"""
+
+    def __init__(self, prog):
+        super().__init__(prog)
+        self.hits = {}
+        self.seen = set()
+
+    def init_user(self, func):
+        return frozenset()
+
+    def on_stmt(self, func, bid, idx, stmt, env, user):
+        from .facts import kind, strip, walk, render
+        u = dict(user)
+        for x in walk(stmt["e"]):
+            if x[0] == "asg" and kind(strip(x[2])) == "var":
+                v = strip(x[2])[1]
+                r = strip(x[3])
+                if x[1] == "=" and kind(r) == "mem":
+                    u[v] = render(r)
+                else:
+                    u.pop(v, None)
+            elif x[0] == "asg" and kind(strip(x[2])) == "mem":
+                # a store to the field invalidates copies of it
+                tr = render(strip(x[2]))
+                for v in [v for v, e in u.items() if e == tr]:
+                    u.pop(v)
+            elif x[0] == "call":
+                pass
+        return frozenset(u.items())
+
+    def on_assume(self, func, bid, cond, pol, env, user):
+        from .facts import kind, strip, render
+        c = strip(cond)
+        if kind(c) == "bin" and c[1] in ("!=", "=="):
+            l, r = strip(c[2]), strip(c[3])
+            u = dict(user)
+            for a, b in ((l, r), (r, l)):
+                if kind(a) == "var" and kind(b) == "mem":
+                    key = (render(c), c[4] if len(c) > 4 else 0)
+                    self.seen.add(key)
+                    if u.get(a[1]) == render(b):
+                        self.hits.setdefault(key, set()).add(True)
+                    else:
+                        self.hits.setdefault(key, set()).add(False)
+        return user
+
+
+def rule_cross_object_compare(ctx):
+    """SELFCMP (C13): the V interface refuses to link objects of different files (`if (vg->f != newfid) DFE_DIFFFILES`).  Such a
+    guard compares a field of one object with a local that must have been loaded from the *other* object.  If, on some path, the
+    local was loaded from the very field it is compared with, the guard is vacuous on that path: an identifier issued for
+    another file is accepted."""
+    from .facts import render
+    prog = ctx.prog
+    n = 0
+    for f in prog.lib_funcs():
+        if not f.rel.endswith(("vgp.c", "vio.c", "vattr.c", "vg.c", "vsfld.c")):
+            continue
+        a = _SelfCmp(prog)
+        a.fails = fail_values(f, prog)
+        try:
+            a.run(f)
+        except Exception:
+            continue
+        for key, outcomes in sorted(a.hits.items()):
+            n += 1
+            k = "SELFCMP:%s:%s" % (f.name, key[0][:40])
+            if True in outcomes:
+                ctx.violated("SELFCMP", k, f.where(), "`%s` compares a field with a local that, on some path, was loaded from that same field: the test cannot fail there and objects of "
+                             "different files (or kinds) are accepted" % key[0][:70])
+            else:
+                ctx.holds("SELFCMP", k, f.where(), "`%s` compares values of two different objects on every path" % key[0][:60], nontrivial=True)
+    ctx.floor("SELFCMP", 1, n, "(comparisons of an object's field with a local loaded from a field)")
+    return n
